@@ -118,6 +118,9 @@ where
         Ok(Ok(b)) => {
             r.reach("read_back_ok_by_dialect", name);
             r.distinct_nontrivial += 1;
+            if r.samples.is_empty() && name != "postgresql" {
+                r.sample(json!({"subject": s.what, "query": s.sql, "dialect": name, "translated": text.chars().take(400).collect::<String>(), "read_back_columns": b.schema().iter().map(|f| format!("{}: {}", f.name(), f.data_type())).collect::<Vec<_>>()}));
+            }
             let orig: Vec<(String, String)> = s.relation.schema().iter().map(|f| (f.name().to_string(), f.data_type().to_string())).collect();
             let got: Vec<(String, String)> = b.schema().iter().map(|f| (f.name().to_string(), f.data_type().to_string())).collect();
             let names_o: Vec<&String> = orig.iter().map(|x| &x.0).collect();
@@ -286,7 +289,6 @@ pub fn run(ctx: &Ctx) -> Report {
     head.merge(body);
     head.set("programs", head.extra.get("subjects").cloned().unwrap_or(json!(0)));
     head.set("disagreements_checked", head.violations.values().map(|v| v.0).sum::<u64>());
-    head.sample(json!({"subject": "SELECT city, sum(age) AS s FROM users GROUP BY city (relation and its DP rewriting)", "translators": ["postgresql", "mysql", "mssql", "bigquery", "hive", "databricks", "redshift", "sqlite"]}));
     head.rule = "subjects = compiled E-sql relations (quick: every second one) and the DP rewritings of the aggregate queries, plus identifiers with spaces, reserved words and quotes x 8 translators; oracle: sqlparser for that dialect accepts the text as exactly one query; for the 7 reading translators Relation::try_from((query, translator)) gives the same column names, order and types; the SQLite rendering executes on SQLite with the results of the PostgreSQL rendering. non-trivial = (subject, dialect) pairs read back successfully".into();
     head.assumptions = vec![
         "acceptance by the target dialect is judged by sqlparser's dialect parsers, not by the real engines".into(),
